@@ -95,7 +95,10 @@ def strip_model_only(line: str) -> str:
 
 def run_case(case: Case, world: str):
     layout.materialise(case, world)
-    return layout.real_eval(case, world)
+    try:
+        return layout.real_eval(case, world)
+    except Exception as e:      # the real code raised something other than InvalidSourceList
+        return "X %s: %s" % (type(e).__name__, str(e)[:200])
 
 
 def replay_detail(case: Case, real: str, model: str, world: str) -> dict:
@@ -113,6 +116,7 @@ def correspondence(ctx: Ctx, cases: list, world: str) -> None:
     ndiff = 0
     first_diffs = []
     known_cells_seen = {}
+    crashes = []
     n_prop_checked = 0
     n_dir_checked = 0
     for case, mline in zip(cases, model):
@@ -123,6 +127,14 @@ def correspondence(ctx: Ctx, cases: list, world: str) -> None:
         ctx.dist("arg_style", case.kind.split(":")[-1])
         ctx.dist("options", "ns=%d,epb=%d,mypy_path=%d,cwd=%s" % (case.ns, case.epb, len(case.mypy_path), case.cwd or "W"))
         ctx.dist("files", str(min(len(case.entries), 9)))
+        if real.startswith("X "):
+            ndiff += 1
+            if len(crashes) < 2:
+                crashes.append(real)
+                ctx.report({"class": "real-code-raises", "exception": real.split(":")[0][2:]},
+                           "create_source_list / find_module raised %s on a layout the model handles" % real[2:],
+                           replay_detail(case, real, mline, world))
+            continue
         rp = layout.parse(real)
         ctx.dist("outcome", "invalid-source-list" if "E" in rp else ("duplicate-module" if rp.get("D", "-") != "-" else "sources"))
         if real != mcmp:
@@ -247,6 +259,14 @@ def three_way_tree(ctx: Ctx, runner, files, regime: str, kind: str) -> bool:
     ctx.dist("cli3_kind", kind)
     ctx.count("cli3_invocations", len(res))
     names = list(res)
+    crashed = [n for n in names if any(l.startswith("CRASH") or "INTERNAL ERROR" in l for l in res[n])]
+    if crashed:
+        ctx.count("cli3_crashes")
+        if ctx.coverage["cli3_crashes"] <= 2:
+            ctx.report({"class": "real-code-raises"}, "mypy crashed on invocation(s) %s of a %d-file tree, regime %s: %s"
+                       % (",".join(crashed), len(files), regime, res[crashed[0]][:2]),
+                       {"regime": regime, "flags": cli3.flags_for(regime), "files": texts, "listed_orders": orders, "diagnostics": res})
+        return False
     if all(res[n] == res[names[0]] for n in names):
         return True
     ctx.count("disagreements_checked")
@@ -261,7 +281,9 @@ def three_way_tree(ctx: Ctx, runner, files, regime: str, kind: str) -> bool:
         ctx.report({"class": "module-beside-bare-dir"}, what + "; module file(s) beside a same-named directory without __init__: "
                    + ", ".join(cell), detail)
     else:
-        ctx.report({"class": "three-way-differs", "regime": regime}, what, detail)
+        ctx.count("cli3_trees_differing_outside_known_cell")
+        if ctx.coverage["cli3_trees_differing_outside_known_cell"] <= 3:
+            ctx.report({"class": "three-way-differs", "regime": regime}, what, detail)
     return False
 
 
@@ -291,6 +313,11 @@ def witnesses(ctx: Ctx, world: str) -> None:
     for (name, cell, case), mline in zip(WITNESSES, model):
         real = run_case(case, world)
         ctx.case(("witness", name))
+        if real.startswith("X "):
+            ctx.report({"class": "real-code-raises", "exception": real.split(":")[0][2:]},
+                       "create_source_list / find_module raised %s on the witness layout of %s" % (real[2:], name),
+                       replay_detail(case, real, mline, world))
+            continue
         rp = layout.parse(real)
         fails = oracle.roundtrip_failures(case, world, rp)
         if real != strip_model_only(mline):
